@@ -15,6 +15,7 @@ func init() {
 		Params: map[string]int{"names": 2}, ThoroughParams: map[string]int{"names": 3}, ExpectReach: []string{"end-failed", "end-ok"},
 		Desc: "one Refresh (poll + applyUpdates + cache flush) from an arbitrary store state against an arbitrary service state"})
 	c11.Harnesses = append(c11.Harnesses, &HarnessSpec{Name: "verifHarnessC11Jitter", Pkg: "client/setec", Stubs: clientStubs, Params: map[string]int{}, ExpectReach: []string{"end"}, Solver: "cvc5-int",
+		ModelOnlyLabels: map[string]string{"within-ten-percent": "the counterexample fixes the result of math/rand.Intn, which the native run cannot control"},
 		Desc: "run(): ticker period = interval + jitter with |jitter| <= interval/10 for every 64-bit interval in [5ns, 2^62ns) and every rand.Intn result (bit-vector arithmetic incl. signed division by 10)"})
 	c11.Bounds["poll interval"] = "5 ns <= interval < 2^62 ns (outside: rand.Intn(0) panics below 5 ns, 2*interval overflows above)"
 	propRegistry = append(propRegistry, c11)
